@@ -144,7 +144,11 @@ def expr_is_point(f: FuncInfo, e: ast.expr, depth: int = 0) -> bool:
     if isinstance(e, ast.Call):
         for t in p.resolve_call(e, f):
             if t.key in COORD_UTILS:
-                return True
+                # a coordinate of the frame whose origin is handed in: with the origin argument left out (or a literal) the result is measured from (0, 0) - a
+                # displacement from the array centre, not a point of the parent's frame
+                b_, _ = Project.bind(e, t)
+                o_ = b_.get("origin", b_.get("origins"))
+                return o_ is not None and point_kind(o_, f, depth + 1)[0]
             rets = wire.returns_of(t)
             if rets and all(expr_is_point(t, wire.inline_locals(t, r.value), depth + 1) for r in rets):
                 return True
